@@ -155,6 +155,18 @@ for fn, code in ((pipe.overlap, DDSErrorCode.OVERLAPPING_PATH), (pipe.nested_eva
     k = kinds(ev)
     if not isinstance(exc, DDSException) or exc.error_code != code: bad("reject", "%s: expected %s, got %r" % (fn.__name__, code, exc))
     if calls or "store_blob" in k or "sync_paths" in k or s._cache or s._paths: bad("reject", "%s: rejected evaluation ran %s / touched the store %s" % (fn.__name__, calls, k))
+# the offending call sits in an accepted module that is imported inside the function body and not loaded yet
+import sys as _sys
+for m_ in ("lazy_ov", "lazy_ev", "lazy_cy"):
+    dds.accept_module(m_)
+for fn, code, mod in ((pipe.lazy_overlap, DDSErrorCode.OVERLAPPING_PATH, "lazy_ov"), (pipe.lazy_nested_eval, DDSErrorCode.EVAL_IN_EVAL, "lazy_ev"), (pipe.lazy_cycle, DDSErrorCode.CIRCULAR_CALL, "lazy_cy")):
+    s = fresh()
+    if mod in _sys.modules: bad("reject", "harness: %s was already imported" % mod)
+    res, exc, ev, calls = run(fn=fn)
+    k = kinds(ev)
+    if not isinstance(exc, DDSException) or exc.error_code != code: bad("reject", "%s (offending call in a module imported inside the function body, not loaded before): expected %s, got %r" % (fn.__name__, code, exc))
+    if calls or "store_blob" in k or "sync_paths" in k or s._cache or s._paths: bad("reject", "%s (lazily imported module): rejected evaluation ran %s / touched the store %s" % (fn.__name__, calls, k))
+    if api._eval_ctx is not None: api._eval_ctx = None
 # the path of a top-level dds.keep takes part in the overlap check like any other kept path
 for (outer, fn, label) in (("/p", pipe.keeps_p_sub, "outer /p, inner /p/sub"), ("/p/sub/x", pipe.keeps_p_sub, "outer /p/sub/x, inner /p/sub")):
     s = fresh(); s.ev.clear(); pipe.CALLS.clear()
@@ -225,6 +237,22 @@ def nested_eval():
     CALLS.append("nested_eval")
     return inner_eval()
 
+def lazy_overlap():
+    CALLS.append("lazy_overlap")
+    import lazy_ov
+    a = dds.keep("/lz/p", f1)
+    return a + lazy_ov.stage()
+
+def lazy_nested_eval():
+    CALLS.append("lazy_nested_eval")
+    import lazy_ev
+    return lazy_ev.stage()
+
+def lazy_cycle():
+    CALLS.append("lazy_cycle")
+    import lazy_cy
+    return lazy_cy.back()
+
 def rec_a():
     CALLS.append("rec_a")
     return rec_b()
@@ -233,6 +261,12 @@ def rec_b():
     CALLS.append("rec_b")
     return rec_a()
 '''
+
+LAZY = {
+    "lazy_ov.py": "import dds\nimport pipe\ndef leaf():\n    pipe.CALLS.append('lazy_ov.leaf')\n    return 1\ndef stage():\n    pipe.CALLS.append('lazy_ov.stage')\n    return dds.keep('/lz/p/sub', leaf)\n",
+    "lazy_ev.py": "import dds\nimport pipe\ndef leaf():\n    pipe.CALLS.append('lazy_ev.leaf')\n    return 1\ndef stage():\n    pipe.CALLS.append('lazy_ev.stage')\n    return dds.eval(leaf)\n",
+    "lazy_cy.py": "import pipe\ndef back():\n    pipe.CALLS.append('lazy_cy.back')\n    return pipe.lazy_cycle()\n",
+}
 
 PIPE_STATE = '''
 def get():
@@ -248,6 +282,9 @@ def run_scenarios():
             f.write(PIPE.replace("def root():", '@dds.data_function("/out/root")\ndef root():'))
         with open(os.path.join(d, "pipe_state.py"), "w") as f:
             f.write(PIPE_STATE)
+        for name, src in LAZY.items():
+            with open(os.path.join(d, name), "w") as f:
+                f.write(src)
         with open(os.path.join(d, "driver.py"), "w") as f:
             f.write(DRIVER)
         env = dict(os.environ, SCEN_DIR=d)
